@@ -365,4 +365,32 @@ example : (transportStagRun exClosed [some (stagWeights (1/3 : Rat) (1/5) (1/10)
 example : ((transportStagRun exClosed [some (stagWeights (1/3 : Rat) (1/5) (1/10) 1 (1/2)), none, none, none] 1
     { mob := { first := 5, cells := [1, 0, 0, 0], last := 7 }, imm := [3, 0, 0, 0] }).map SCol.imm) ≠ [[3, 0, 0, 0]] := by decide +kernel
 
+/-! ### constant-concentration boundaries: the exchange with the boundary solutions is accounted for -/
+
+/-- **constant_boundary_mix_balance** — diffusion only, equal cell lengths, *any* boundary-condition pair: one sub-mix
+changes the column inventory exactly by the exchange with the two boundary solutions,
+`m[1]/nmix · (c₀ − c₁) + m1[n]/nmix · (c_{n+1} − c_n)`, where `m[1]`, `m1[n]` (`aEnd`, `bEnd`) are the boundary factors
+of `init_mix` (zero unless the boundary is constant). With closed/flux ends this is `closed_inventory_constant`. -/
+theorem constant_boundary_mix_balance (s : Setup) (hf : s.flow = Flow.none) {L : Rat} (hL : ∀ c ∈ s.cells, c.len = L)
+    (hk : (initMix s).nmix ≠ 0) {c : Col Rat} (x : Rat) (xs : List Rat) (hc : c.cells = x :: xs) (hn : c.cells.length = s.n) :
+    (mixStep (initMix s).weights c).sum =
+      c.sum + aEnd s / ((initMix s).nmix : Rat) * (c.first - x)
+            + bEnd s / ((initMix s).nmix : Rat) * (c.last - (x :: xs).getLast (List.cons_ne_nil _ _)) := by
+  have hne : s.cells ≠ [] := by
+    intro h
+    have : s.n = 0 := by simp [Setup.n, h]
+    rw [this, hc] at hn
+    simp at hn
+  have hs : SymEnds (bEnd s / ((initMix s).nmix : Rat)) (aEnd s / ((initMix s).nmix : Rat)) (initMix s).weights := by
+    have := weightsWith_symE hk (bEnd s) _ _ (rawMix_symE s hf hL hne)
+    simpa [initMix] using this
+  exact mixStep_sum_ends hs x xs hc (by rw [weights_length s hk, hn])
+
+-- non-vacuity: constant boundary at the first end (solution 0 = 5), closed at the other: the inventory grows by exactly
+-- the boundary exchange
+example : aEnd { exClosed with bconFirst := 1 } = 2 ∧ bEnd { exClosed with bconFirst := 1 } = 0 := by decide +kernel
+example : (initMix { exClosed with bconFirst := 1 }).nmix = 5 := by decide +kernel
+example : (mixStep (initMix { exClosed with bconFirst := 1 }).weights { first := 5, cells := [1, 0, 0, 0], last := 7 }).sum
+    = 1 + 2 / 5 * (5 - 1) := by decide +kernel
+
 end PhreeqcVerif.Transport
